@@ -144,15 +144,21 @@ def run_op_with_images(kind, prep, op, C, cfgbackend=False):
         records = []
         for (k, gate, ipath, opened) in im.images:
             variants = [("", ipath)]
-            # torn variants: the most recently opened-for-writing file holds 0 / half of its bytes
-            if opened:
-                rel = opened[-1]
+            # torn variants: a file opened for writing during the operation and still present
+            # under that name (the most recent one, and every lock / temporary file that has
+            # not been renamed into place yet) holds 0 / half of its bytes
+            cands = []
+            for rel in reversed(opened):
+                if rel not in cands and (not cands or rel.endswith((".lock", ".tmp"))) \
+                        and (not cands or os.path.isfile(os.path.join(ipath, rel))):
+                    cands.append(rel)
+            for rel in cands[:4]:
                 fp = os.path.join(ipath, rel)
                 if os.path.isfile(fp):
                     size = os.path.getsize(fp)
                     for frac, tag in ((0, "empty"), (0.5, "half")):
-                        if size > 1 or frac == 0:
-                            tp = ipath + "-" + tag
+                        if size > 1 or (frac == 0 and rel == cands[0]):
+                            tp = ipath + "-" + tag + "-%d" % cands.index(rel)
                             shutil.copytree(ipath, tp, symlinks=True)
                             with open(os.path.join(tp, rel), "r+b") as f:
                                 f.truncate(int(size * frac))
